@@ -323,6 +323,7 @@ func profileFor(prop string) Profile {
 		p.Restart = 1
 	case "C10":
 		p.Restart = 8
+		p.InjectFile = 35
 	case "C03":
 		p.Blocking = 30
 	case "C07":
@@ -413,7 +414,7 @@ func account(h *History, res *common.Result) {
 		if s.Resp.Ok && (s.Op.Kind == "trylock" || s.Op.Kind == "lock") {
 			grants++
 		}
-		if s.Resp.Ok && (s.Op.Kind == "unlock" || s.Op.Kind == "ipcunlock") || s.Op.Kind == "restart" {
+		if s.Resp.Ok && (s.Op.Kind == "unlock" || s.Op.Kind == "ipcunlock") || s.Op.Kind == "restart" || s.Op.Kind == "restartwith" {
 			ends++
 		}
 		if s.Resp.Pending {
